@@ -308,8 +308,14 @@ func c06Compare(c rnnCase, outs []tensor.Tensor, Y, Yh, Yc []float64) string {
 		if outs[i].Dtype() != c.dt {
 			return fmt.Sprintf("%s has dtype %v, want %v", names[i], outs[i].Dtype(), c.dt)
 		}
-		if d := maxAbsDiff(f64s(outs[i]), want[i]); d > c06Tol {
-			return fmt.Sprintf("%s differs from the ONNX recurrence by %g (tolerance %g)", names[i], d, c06Tol)
+		// relative to the magnitude of the state: with relu as gate activation the recurrence is
+		// unbounded and float32 rounding grows with it
+		mag := 1.0
+		for _, v := range want[i] {
+			mag = math.Max(mag, math.Abs(v))
+		}
+		if d := maxAbsDiff(f64s(outs[i]), want[i]); d > c06Tol*mag {
+			return fmt.Sprintf("%s differs from the ONNX recurrence by %g (tolerance %g)", names[i], d, c06Tol*mag)
 		}
 	}
 	return ""
@@ -385,11 +391,15 @@ func c06Split(c rnnCase, whole []tensor.Tensor, k int) string {
 		return fmt.Sprintf("second piece (%d steps, initial state = final state of the first) failed although the whole sequence was computed: %v", c.S-k, r2)
 	}
 	y := append(f64s(r1.outs[0]), f64s(r2.outs[0])...)
-	if d := maxAbsDiff(y, f64s(whole[0])); d > 1e-6 {
+	mag := 1.0
+	for _, v := range f64s(whole[0]) {
+		mag = math.Max(mag, math.Abs(v))
+	}
+	if d := maxAbsDiff(y, f64s(whole[0])); d > 1e-6*mag {
 		return fmt.Sprintf("split at %d: concatenated Y differs from the whole-sequence Y by %g", k, d)
 	}
 	for i := 1; i < len(whole); i++ {
-		if d := maxAbsDiff(f64s(r2.outs[i]), f64s(whole[i])); d > 1e-6 {
+		if d := maxAbsDiff(f64s(r2.outs[i]), f64s(whole[i])); d > 1e-6*mag {
 			return fmt.Sprintf("split at %d: final state %d differs from the whole-sequence one by %g", k, i, d)
 		}
 	}
@@ -400,10 +410,10 @@ func TestC06(t *testing.T) {
 	ev.Begin("C06",
 		"rapid: RNN/GRU/LSTM with seq in 1..8, batch 1..4, input 1..4, hidden 1..5 (unit sizes down-weighted, not removed), every subset of {B, initial_h, initial_c, P} present / left out / explicitly nil with non-zero contents, activations absent or drawn from supported, ONNX-capitalised and unsupported names, linear_before_reset and input_forget absent/0/1, float32 (float64 as compute-or-refuse); for computed cases with seq >= 2 a drawn split point. "+
 			"Non-trivial: seq >= 2 and at least one optional input present. Distinct = (kind, sizes, attributes, presence pattern, value bits).",
-		"float64 reference of the ONNX equations (iofc / zrh packing, Wb then Rb, P=[i,o,f]), tolerance 1e-4 absolute (measured agreement 1.6e-7, DESIGN.md 1.6); split relation to 1e-6")
+		"float64 reference of the ONNX equations (iofc / zrh packing, Wb then Rb, P=[i,o,f]), tolerance 1e-4 x max(1, largest |state|) (measured agreement 1.6e-7, DESIGN.md 1.6); split relation to 1e-6 on the same scale")
 	defer reportKnownFindings("C06")
 
-	check(t, "recurrent", 10000, 30000, func(rt *rapid.T) {
+	check(t, "recurrent", 10000, 100000, func(rt *rapid.T) {
 		c := genRnnCase(rt)
 		node := c.node()
 		res := runOp(c.kind, node, c.inputs())
